@@ -24,6 +24,8 @@ func init() {
 }
 
 func runC10(c *Ctx) {
+	c.R.Rule("RS-no-request-time-state", "request handling writes no state that outlives the request (package-level variables, objects built at start-up, constructor variables captured by handlers) declared in the packages implementing this property", 1)
+	runStateless(c, "RS-no-request-time-state", "pkg/sessions", "pkg/cookies", "pkg/encryption")
 	r := c.R
 	r.Rule("R1-codec-agreement", "same compression flag and cipher source on the encode and decode side of each store; same ticket key for save/load/clear; Encode/Decode mirror each other", 11)
 	r.Rule("R2-every-field-serialised", "every SessionState field except the reviewed runtime helpers has a unique msgpack key", 10)
